@@ -223,7 +223,7 @@ func sweep(p prog, ei, pi int, fullLengths bool) blockResult {
 	addrClasses, portClasses := 1, 1
 	flagVals := []int{0x12}
 	if p.cfg >= 0 {
-		addrClasses, portClasses = 5, 4
+		addrClasses, portClasses = 5, 5 // (port class 4: the OTHER end's port - a cross-field coincidence)
 	}
 	if p.name == "synack" {
 		flagVals = flagVals[:0]
@@ -283,6 +283,11 @@ func sweep(p prog, ei, pi int, fullLengths bool) blockResult {
 										if ps == src.Port() {
 											ps ^= 0x8000
 										}
+									case 4:
+										ps = dst.Port()
+										if ps == src.Port() {
+											ps ^= 0x0004
+										}
 									}
 									switch dp {
 									case 1:
@@ -293,6 +298,11 @@ func sweep(p prog, ei, pi int, fullLengths bool) blockResult {
 										pd = pd<<8 | pd>>8
 										if pd == dst.Port() {
 											pd ^= 0x8000
+										}
+									case 4:
+										pd = src.Port()
+										if pd == dst.Port() {
+											pd ^= 0x0004
 										}
 									}
 									if x+18 <= frameLen {
